@@ -331,6 +331,65 @@ fn run(ctx: &mut Ctx) {
         }
         exercise(ctx, run, &banks, what);
     });
+    ctx.cases("bank-mutations", ctx.tier.pick(16, 200), |ctx, i, rng| {
+        // a small valid event: TRG + 2 wire banks + one PWB packet
+        let w = rng.usize(256);
+        let mut wires: BTreeMap<usize, Vec<i16>> = BTreeMap::new();
+        wires.insert(w, (0..200).map(|_| 3000 + (rng.gauss() * 4.0) as i16).collect());
+        wires.insert((w + 1) % 256, (0..200).map(|_| 3000 + (rng.gauss() * 4.0) as i16).collect());
+        let col = crate::evgen::wire_to_column(w);
+        let row = 5 + rng.usize(560);
+        let mut pads: BTreeMap<(usize, usize), Vec<i16>> = BTreeMap::new();
+        for r in row..row + 3 {
+            pads.insert((col, r), (0..150).map(|_| 1725 + (rng.gauss() * 3.0) as i16).collect());
+        }
+        let mut base: Banks = Vec::new();
+        for (w, s) in &wires {
+            base.push(event::wire_bank(&inv, *w, s.clone()));
+        }
+        let nw = base.len();
+        base.extend(event::pad_banks(&inv, &pads, 5000));
+        base.push(event::trg_bank(i as u32));
+        exercise(ctx, u32::MAX, &base, "bank mutation base event");
+        let vals: [u8; 10] = [0, 1, 2, 0x0F, 0x10, 0x7F, 0x80, 0xFD, 0xFE, 0xFF];
+        // TRG: every byte x 10 values
+        let ti = base.len() - 1;
+        for pos in 0..80 {
+            for v in vals {
+                let mut b = base.clone();
+                if b[ti].1[pos] == v {
+                    continue;
+                }
+                b[ti].1[pos] = v;
+                exercise(ctx, u32::MAX, &b, "TRG bank with one byte changed");
+            }
+        }
+        // wire bank: header and footer bytes (baseline re-fixed where the samples are untouched)
+        for pos in (0..32).chain(432..436) {
+            for v in vals {
+                let mut b = base.clone();
+                if pos < b[0].1.len() {
+                    b[0].1[pos] = v;
+                    exercise(ctx, u32::MAX, &b, "wire bank with one byte changed");
+                }
+            }
+        }
+        // PWB: one payload byte changed, chunk CRCs valid
+        let pi = nw;
+        let dec = alpha_g_detector::padwing::Chunk::try_from(&base[pi].1[..]).unwrap();
+        let plen = dec.payload().len();
+        let positions: Vec<usize> = (0..56.min(plen)).chain((0..20).map(|_| rng.usize(plen))).chain(plen.saturating_sub(8)..plen).collect();
+        for pos in positions {
+            for v in [0u8, 1, 0x7F, 0x80, 0xFF] {
+                let mut payload = dec.payload().to_vec();
+                payload[pos] = v;
+                let c = crate::enc::Chunk { device_id: dec.board_id().device_id(), packet_sequence: 1, channel_sequence: 1, channel_id: base[pi].1[10], flags: 1, chunk_id: 0, payload };
+                let mut b = base.clone();
+                b[pi].1 = c.encode();
+                exercise(ctx, u32::MAX, &b, "PWB packet with one payload byte changed (valid CRCs)");
+            }
+        }
+    });
     ctx.require("events with avalanches", 20);
     ctx.require("events with a vertex", 10);
     ctx.require("pad samples at extremes: built", 1);
